@@ -10,9 +10,24 @@ use std::path::{Path, PathBuf};
 use std::process::{Child, Command, Stdio};
 use std::time::{Duration, Instant};
 
+/// A loopback port no other launch of THIS process uses: ports are handed out from a per-process
+/// counter (two bind(0)+close probes in parallel threads can return the same ephemeral port, and
+/// a launch would then mistake another job's server for its own) and probed for availability.
 pub fn free_port() -> u16 {
-    let l = std::net::TcpListener::bind(("127.0.0.1", 0)).expect("bind");
-    l.local_addr().unwrap().port()
+    use std::sync::atomic::{AtomicU32, Ordering};
+    static NEXT: AtomicU32 = AtomicU32::new(0);
+    let base = 20_000 + (std::process::id() % 300) * 100;
+    for _ in 0..20_000 {
+        let n = NEXT.fetch_add(1, Ordering::Relaxed);
+        let port = (base + n) % 40_000 + 20_000;
+        if port > 65_000 {
+            continue;
+        }
+        if std::net::TcpListener::bind(("127.0.0.1", port as u16)).is_ok() {
+            return port as u16;
+        }
+    }
+    panic!("no free loopback port");
 }
 
 pub struct RealServer {
@@ -76,6 +91,12 @@ pub fn launch(config: &Path, port: u16, http_port: u16, envs: &[(String, String)
             return Launch::Refused { code: st.code(), log_tail: tail(&log, 4) };
         }
         if std::net::TcpStream::connect_timeout(&format!("127.0.0.1:{port}").parse().unwrap(), Duration::from_millis(100)).is_ok() {
+            // the listener must be OUR child: if the child has exited meanwhile, whoever accepted
+            // the connection is somebody else
+            std::thread::sleep(Duration::from_millis(30));
+            if let Ok(Some(st)) = child.try_wait() {
+                return Launch::Refused { code: st.code(), log_tail: tail(&log, 4) };
+            }
             return Launch::Started(RealServer { child, port, log });
         }
         if t0.elapsed() > Duration::from_secs(30) {
